@@ -1,5 +1,5 @@
-//! Engine `P` (C16/C19/C13): std::path behaviour rapidquilt relies on — `components`, the strip loop
-//! of `FilePatch::strip` (`next()` × n, `as_path()`), and the real `make_rej_filename`.
+//! Engine `P` (C16/C19/C13): std::path behaviour rapidquilt relies on — `components`, the real
+//! `FilePatch::strip` and the real `make_rej_filename`.
 use std::collections::HashMap;
 use std::ffi::OsStr;
 use std::io::Write;
@@ -29,11 +29,29 @@ fn comps(p: &Path) -> String {
     if v.is_empty() { "-".to_string() } else { v.join(",") }
 }
 
+/// the real `FilePatch::strip` (its `strip_path` has a borrowed and an owned branch: both are run, on the
+/// old and on the new name, and must agree)
+fn real_strip(raw: &[u8], n: usize) -> Vec<u8> {
+    use std::borrow::Cow;
+    use libpatch::patch::{FilePatchBuilder, FilePatchKind};
+    let p = Path::new(OsStr::from_bytes(raw));
+    let mut fp = FilePatchBuilder::<&[u8]>::default()
+        .kind(FilePatchKind::Modify)
+        .old_filename(Some(Cow::Borrowed(p)))
+        .new_filename(Some(Cow::Owned(p.to_path_buf())))
+        .hunks(Vec::new().into())
+        .build().unwrap();
+    fp.strip(n);
+    let a = fp.old_filename().unwrap().as_os_str().as_bytes().to_vec();
+    let b = fp.new_filename().unwrap().as_os_str().as_bytes().to_vec();
+    if a != b { let mut x = b"BRANCHES-DIFFER:".to_vec(); x.extend_from_slice(&a); x.push(b'|'); x.extend_from_slice(&b); return x; }
+    a
+}
+
 fn run_case(raw: &[u8], n: usize) -> String {
     let p = Path::new(OsStr::from_bytes(raw));
-    let mut c = p.components();
-    for _ in 0..n { c.next(); }
-    let stripped = c.as_path();
+    let stripped_bytes = real_strip(raw, n);
+    let stripped = Path::new(OsStr::from_bytes(&stripped_bytes));
     let rej = make_rej_filename(stripped);
     format!("strip={} comps={} rej={}", hex(stripped.as_os_str().as_bytes()), comps(p), hex(rej.as_os_str().as_bytes()))
 }
@@ -69,7 +87,9 @@ pub fn run<W: Write>(out: &mut W, seed: u64, n: usize, opts: &HashMap<String, St
     for _ in 0..n {
         let len = rng.below(10);
         let raw: Vec<u8> = (0..len).map(|_| *rng.pick(&alphabet)).collect();
-        emit(out, id, &raw, rng.below(5));
+        // strip counts far beyond what any name has (the strip loop must stop at the end of the name)
+        let strip = if rng.chance(4) { *rng.pick(&[usize::MAX, usize::MAX / 2 + 1, 4_000_000_000usize, 1usize << 40]) } else { rng.below(5) };
+        emit(out, id, &raw, strip);
         id += 1;
     }
 }
